@@ -302,6 +302,17 @@ def worlds(draw, ninst=3, hostile_names=True, split_paths=False, foreign_ids=Fal
                 holder = {idkw: nid}
                 holder[inner_key] = [r] if inner_key in ("allOf",) else r
                 k = draw(st.sampled_from(["n1", "a"]))
+                wrap = draw(st.sampled_from(["plain", "plain", "not", "anyOf", "oneOf", "contains"]))
+                if wrap == "not" and d >= 4:
+                    holder = {"not": holder}
+                elif wrap in ("anyOf", "oneOf") and d >= 4:
+                    holder = {wrap: [holder, draw(leaf)]}
+                elif wrap == "contains" and d >= 6:
+                    holder = {"contains": holder}
+                elif wrap != "plain" and d == 3:
+                    holder = {"disallow": [holder]}
+                if wrap != "plain":
+                    classes.append("nested-id-under-verdict-only-keyword")
                 root.setdefault("properties", {})[k] = holder
                 classes.append("nested-id")
                 if not nid.startswith("http"):
@@ -359,8 +370,11 @@ def worlds(draw, ninst=3, hostile_names=True, split_paths=False, foreign_ids=Fal
                 v1, v2 = draw(inst_scalar), draw(inst_scalar)
                 order = draw(st.permutations([{"s1": v1}, {"s2": v2}, {"s1": v2, "s2": v1}]))
                 xs = list(order) + xs
+    explicit_base = root_base.startswith("http") and draw(st.integers(0, 3)) == 0
+    if explicit_base:
+        classes.append("explicit-base-differs-from-root-id")
     return {"kind": "world", "draft": d, "root": root, "docs": docs, "via": via, "instances": xs,
-            "classes": sorted(set(classes))}
+            "explicit_base": explicit_base, "classes": sorted(set(classes))}
 
 
 # ---------------------------------------------------------------------------------------------
@@ -422,6 +436,19 @@ def build_validator(case, handler=None, **resolver_kwargs):
     d = case["draft"]
     cls = impl.CLS[d]
     root = copy.deepcopy(case["root"])
+    if case.get("explicit_base") and root_uri(case).startswith("http"):
+        # the document was retrieved from somewhere else than its id says (RefResolver(base_uri, referrer, ...), as
+        # the CLI's --base-uri does): its own id still is the base for everything inside it
+        store = dict((u + ("#" if case["via"].get(u) == "store#" else ""), copy.deepcopy(dd))
+                     for u, dd in case["docs"].items() if case["via"].get(u) in ("store", "store#"))
+        store[doc_uri(root_uri(case))] = root
+        handler = handler or Handler(case)
+        resolver = impl.validators.RefResolver(
+            "http://retrieved-from.test/some/where.json", root, store=store,
+            handlers={"http": handler, "https": handler}, **resolver_kwargs)
+        v = cls(root, resolver=resolver)
+        v._verif_handler = handler
+        return v
     # "store#": the document is supplied under its URI with an empty fragment (common for draft 3/4 ids)
     store = dict((u + ("#" if case["via"].get(u) == "store#" else ""), copy.deepcopy(dd))
                  for u, dd in case["docs"].items() if case["via"].get(u) in ("store", "store#"))
